@@ -233,6 +233,11 @@ func c16R2(c *Ctx) {
 			ic, _ := callOf(v)
 			return ic != nil && calleeID(&ic.Call) == "bytes.IndexByte" && sameValue(ic.Call.Args[0], buf) && isConstIntV(3)(ic.Call.Args[1])
 		}, isConstIntV(0))
+		for _, fc := range factsAt(call.Block()) {
+			if cc, _ := callOf(fc.V); cc != nil && !fc.Pol && containsCtrlC(cc) && sameValue(cc.Call.Args[0], buf) {
+				good = true // bytes.Contains(buf, {0x03}) found false
+			}
+		}
 		c.check(good, "readLine/ctrl-c-before-append", c.ipos(call), "bytes are appended only after the chunk was found free of Ctrl-C", "bytes can be appended to the line without the Ctrl-C test on that same chunk")
 	})
 	if n == 0 {
@@ -325,6 +330,22 @@ func c16R2(c *Ctx) {
 			found = true
 			okE, why := failEdge(c, b, 0)
 			c.check(okE, c.fnName(fn)+"/ctrl-c-interrupts", c.ipos(i), "Ctrl-C returns the Interrupted error", "Ctrl-C edge does not end the read with an error: "+why)
+		}
+		for _, b := range fn.Blocks {
+			i := blockIf(b)
+			if i == nil {
+				continue
+			}
+			nf := normFact(fact{V: i.Cond, Pol: true})
+			if cc, _ := callOf(nf.V); cc != nil && containsCtrlC(cc) {
+				found = true
+				k := 0
+				if !nf.Pol {
+					k = 1
+				}
+				okE, why := failEdge(c, b, k)
+				c.check(okE, c.fnName(fn)+"/ctrl-c-interrupts", c.ipos(i), "Ctrl-C returns the Interrupted error", "Ctrl-C edge does not end the read with an error: "+why)
+			}
 		}
 		if !found {
 			c.bad(c.fnName(fn)+"/ctrl-c-interrupts", c.pos(fn.Pos()), "no Ctrl-C test in the line reader")
@@ -1085,6 +1106,11 @@ func c16StripLens(c *Ctx) {
 	n := 0
 	for _, ci := range callsIn(f, idIs("bytes.Index")) {
 		mk, ok := constString(strip(ci.Common().Args[1]))
+		var mkGlobal *ssa.Global
+		if !ok {
+			// a package-level []byte set once, in the package initialiser, from a string constant
+			mk, mkGlobal, ok = c.globalConstBytes(ci.Common().Args[1])
+		}
 		if !ok {
 			c.bad("stripTmuxStatusLine/marker", c.ipos(ci), "the marker searched for is not a constant")
 			continue
@@ -1104,6 +1130,15 @@ func c16StripLens(c *Ctx) {
 						good = false
 					}
 				}
+				// len(marker) of the very variable searched for
+				if lc, _ := callOf(opd); lc != nil && calleeID(&lc.Call) == "builtin len" && mkGlobal != nil {
+					if _, g2, ok2 := c.globalConstBytes(lc.Call.Args[0]); ok2 {
+						found = true
+						if g2 != mkGlobal {
+							good = false
+						}
+					}
+				}
 			}
 		}
 		c.check(found && good, fmt.Sprintf("stripTmuxStatusLine/skip=len(marker).%d", n), c.ipos(ci), "the skip after this marker is the marker's length", fmt.Sprintf("after finding %q the stripper skips a number of bytes that is not its length %d: a control byte is left in, or a payload byte is cut out", mk, len(mk)))
@@ -1111,4 +1146,47 @@ func c16StripLens(c *Ctx) {
 	if n != 3 {
 		c.undecided("stripTmuxStatusLine/markers", "expected three marker searches (begin, middle, end)")
 	}
+}
+
+// containsCtrlC: the call is bytes.Contains(x, []byte{0x03}) (or of the string "\x03"): "the chunk holds a Ctrl-C".
+func containsCtrlC(call *ssa.Call) bool {
+	if calleeID(&call.Call) != "bytes.Contains" || len(call.Call.Args) != 2 {
+		return false
+	}
+	if s, ok := constString(strip(call.Call.Args[1])); ok {
+		return s == "\x03"
+	}
+	if els, ok := sliceElems(call.Call.Args[1]); ok && len(els) == 1 {
+		return isConstIntV(3)(els[0].V)
+	}
+	return false
+}
+
+// globalConstBytes: v is a load of a package-level variable that is written exactly once in the whole package, by the
+// package initialiser, with []byte("constant"). Returns the constant and the variable.
+func (c *Ctx) globalConstBytes(v ssa.Value) (string, *ssa.Global, bool) {
+	u, ok := strip(v).(*ssa.UnOp)
+	if !ok || u.Op != token.MUL {
+		return "", nil, false
+	}
+	g, ok := u.X.(*ssa.Global)
+	if !ok {
+		return "", nil, false
+	}
+	val, n := "", 0
+	for _, f := range c.AllFns {
+		eachInstr(f, func(in ssa.Instruction) {
+			st, isSt := in.(*ssa.Store)
+			if !isSt || st.Addr != ssa.Value(g) {
+				return
+			}
+			n++
+			if s, isS := constString(strip(st.Val)); isS && f.Name() == "init" {
+				val = s
+			} else {
+				n += 100
+			}
+		})
+	}
+	return val, g, n == 1
 }
